@@ -147,7 +147,7 @@ def run(ctx, args):
     src = A.pp(prog)
     lib = ctx.tmp("vmhistory-lib.json")
     lib.write_text(json.dumps({"prog": prog, "ops": ops, "init": init, "vms": 2}))
-    depth = 3 if quick else 4
+    depth = 3          # 22^3 = 10 648 histories; depth 4 would be 234 256 (the thorough tier goes deeper by simulation instead)
     cfg = (f"CONSTANTS Depth = {depth}\nINIT HInit\nNEXT HNext\nINVARIANT NamesKept\nINVARIANT Report\n"
            "PROPERTY Isolation\nPROPERTY Persistence\nPROPERTY FreshLocals\nCHECK_DEADLOCK FALSE\n")
     res = ctx.tlc("VMHistory", cfg, env={"BATCH": str(lib)}, timeout=6000)
@@ -156,8 +156,8 @@ def run(ctx, args):
     if len(hists) != want:
         raise common.Machinery(f"expected {want} complete histories from TLC, got {len(hists)}")
     # longer random histories: TLC simulation mode over the same specification
-    sdepth = 10 if quick else 14
-    num = 400 if quick else 6000
+    sdepth = 10 if quick else 16
+    num = 400 if quick else 12000
     cfg2 = (f"CONSTANTS Depth = {sdepth}\nINIT HInit\nNEXT HNext\nINVARIANT NamesKept\nINVARIANT Report\nCHECK_DEADLOCK FALSE\n")
     res2 = ctx.tlc("VMHistory", cfg2, env={"BATCH": str(lib)}, timeout=6000, simulate=f"num={num}", depth=sdepth * 150, seedarg=ctx.seed + 1, workers=1)
     long_h = [r["hist"] for r in res2.records]
